@@ -10,4 +10,5 @@ Theorem paths_never_accounted_twice : never_accounted_twice = true. Proof. vm_co
 Theorem paths_serve_replies : serve_paths_reply = true. Proof. vm_compute. reflexivity. Qed.
 Theorem paths_are_nonvacuous : paths_nonvacuous = true. Proof. vm_compute. reflexivity. Qed.
 Theorem paths_finish_once : finish_paths_once = true. Proof. vm_compute. reflexivity. Qed.
+Theorem paths_response_size : response_size_paths = true. Proof. vm_compute. reflexivity. Qed.
 Print Assumptions paths_call_accounted.
